@@ -23,6 +23,14 @@ func TestC06_History(t *testing.T) {
 	known := isKnown("C01", sigF1)
 	rapid.Check(t, func(rt *rapid.T) {
 		sc := genHistory(rt, c06Weights())
+		if rapid.IntRange(0, 3).Draw(rt, "latest") == 0 {
+			// first start with auto-reset latest on vBuckets that hold events already and have failed over before
+			sc.Reset = "latest"
+			sc.PreFailover = rapid.IntRange(0, 3).Draw(rt, "prefailover")
+			for v := sc.Lo; v <= sc.Hi; v++ {
+				sc.Pre = append(sc.Pre, rapid.SliceOfN(rapid.SampledFrom([]string{"mut", "mut", "del", "cc"}), 0, 4).Draw(rt, "pre"))
+			}
+		}
 		journal("C06", "c06hist", sc)
 		v, labels, _ := runHistory(&sc, known != nil, "C06")
 		journalDone()
@@ -30,6 +38,9 @@ func TestC06_History(t *testing.T) {
 			violation(rt, v.Prop, "c06hist", sc, "%s", v.Detail)
 		}
 		nt := labels["ack_after_2_later_markers"] && labels["save_ok"]
+		if sc.Reset == "latest" && sc.PreFailover > 0 {
+			labels["latest_start_on_a_failed_over_vbucket"] = true
+		}
 		record("C06", sc, nt, append(labelList(labels), "histories")...)
 	})
 }
